@@ -23,6 +23,10 @@ def handle (op : String) (fs : List (String × String)) : String :=
     | _, _ => "bad-case"
   else if op == "conc.hdrwrite" then
     if headerWriteFootprint.sharedWrites.isEmpty then "unchanged" else "changed"
+  else if op == "conc.crossfont" then
+    -- using one font (listed, confined operations only) cannot change what another font does:
+    -- package-level state is part of the shared set that confined operations do not write
+    if predictPure "layout" == "unchanged" && predictPure "findlookups" == "unchanged" then "equal" else "may-differ"
   else if op == "conc.selftest" then
     -- harness self-test (completeness of the snapshot the purity streams rely on): a planted write
     -- into any slice or map of the font graph changes the hash
